@@ -89,6 +89,19 @@ end AlgoVerif.Gram
 namespace AlgoVerif.C08
 open AlgoVerif
 
+/-- the name `AddNewNonTerminal` returns is the trimmed prefix followed by one of the suffixes -/
+theorem addNew_form {g g1 : G} {pre n : String} {sufs : List String} (h : addNew g pre sufs = .ok (g1, n)) :
+    ∃ s ∈ sufs, n = (sufs.foldl trimSuffix pre) ++ s := by
+  unfold addNew at h
+  split at h
+  · rename_i m hm
+    cases h
+    unfold freshName at hm
+    have := List.mem_of_find?_eq_some hm
+    obtain ⟨s, hs, rfl⟩ := List.mem_map.mp this
+    exact ⟨s, hs, rfl⟩
+  · cases h
+
 /-! ## `foldlM` in `Outcome` -/
 
 theorem foldlM_nil {σ β : Type} (f : σ → β → Outcome σ) (s : σ) : List.foldlM f s [] = .ok s := rfl
